@@ -299,7 +299,9 @@ class Interp:
             return c.value
         if k == "unit":
             return UNIT
-        if k in ("str", "bytes", "char", "float"):
+        if k in ("str", "bytes"):
+            return Ref(Cell(c.value, "const"), (), False)
+        if k in ("char", "float"):
             return c.value
         if k == "alloc":
             a = frame.body.allocs.get(c.value)
@@ -760,7 +762,7 @@ class Interp:
                         if t.unwind is None:
                             raise
                         fr.bb = t.unwind
-                        self.unwinding = True
+                        self.env.unwinding_now = True
                         continue
                     if t.targets[0] is None:
                         raise Unsupported("diverging call returned: " + t.callee)
